@@ -90,7 +90,11 @@ mut('C15', 'finish_called_twice', [e(PY_ENGINE, "    compile_and_run(query_conte
 mut('C15', 'set_header_twice_for_update_join', [e(PY_ENGINE, "        query_context.writer.set_header(input_header)\n", "        query_context.writer.set_header(input_header)\n        if JOIN in rb_actions:\n            query_context.writer.set_header(input_header)\n")], runs=4000)
 mut('C15', 'decode_errors_replaced', [e(PY_CSV, "            return io.TextIOWrapper(stream.buffer, encoding=encoding)\n        except AttributeError:\n            # BytesIO doesn't have \"buffer\"\n            return io.TextIOWrapper(stream, encoding=encoding)\n    else:\n        # Reference: https://stackoverflow.com/a/27425797/2898283",
                                          "            return io.TextIOWrapper(stream.buffer, encoding=encoding, errors='replace')\n        except AttributeError:\n            # BytesIO doesn't have \"buffer\"\n            return io.TextIOWrapper(stream, encoding=encoding, errors='replace')\n    else:\n        # Reference: https://stackoverflow.com/a/27425797/2898283")], runs=2500)
-mut('C15', 'flush_after_every_record', [e(PY_CSV, "            self.stream.write(self.line_separator)\n            return True\n", "            self.stream.write(self.line_separator)\n            self.stream.flush()\n            return True\n")], expect='clean', runs=2500)
+# Not neutral after all: a flush that fails inside write() leaves the bytes in sys.stdout's BufferedWriter and, unlike the final flush in
+# finish(), nothing closes sys.stdout afterwards, so `rbql ... | true` ends with "Exception ignored ... BrokenPipeError" and status 120.
+mut('C15', 'flush_after_every_record', [e(PY_CSV, "            self.stream.write(self.line_separator)\n            return True\n", "            self.stream.write(self.line_separator)\n            self.stream.flush()\n            return True\n")], expect='caught', runs=2500)
+mut('C15', 'records_joined_before_write', [e(PY_CSV, "            self.stream.write(out_line)\n            if self.colors is not None:\n                self.stream.write(ansi_reset_color_code)\n            self.stream.write(self.line_separator)\n            return True\n",
+                                                 "            self.stream.write(out_line + (ansi_reset_color_code if self.colors is not None else '') + self.line_separator)\n            return True\n")], expect='clean', runs=2500)
 
 # ------------------------------------------------------------------ C16
 mut('C16', 'functional_aggregators_shared', [e(PY_ENGINE, "        self.aggregation_key_expression = None\n        self.functional_aggregators = []\n", "        self.aggregation_key_expression = None\n"),
